@@ -375,6 +375,24 @@ func (e *explorer) report(f Finding, ops []Op) {
 	})
 }
 
+// reportSeed reports a seed that could not be built soundly: the failing prefix of the seed op list
+// is the counterexample (no shrinking: seeds are long scripted constructions).
+func (e *explorer) reportSeed() {
+	pl := e.pl
+	f := *pl.seedFail
+	ops := pl.Seed[:pl.seedFailAt]
+	e.r.Transitions += int64(pl.seedFailAt)
+	e.r.AddViolation(core.Violation{
+		Property:  e.r.Property,
+		Assertion: f.Assertion,
+		Signature: fmt.Sprintf("m=%d|seed=%s|%s|seed-prefix(%d)", pl.M, pl.SeedName, f.Assertion, pl.seedFailAt),
+		Detail:    fmt.Sprintf("m=%d, building seed %s from a new tree: %s", pl.M, pl.SeedName, f.Detail),
+		Replay:    ReplayDoc{Plan: pl.Name, Tier: e.f.Tier, M: int(pl.M), Seed: pl.SeedName, Ops: nil, Assertion: f.Assertion, Text: "seed prefix: " + opsString(ops)},
+	})
+	e.r.Extra["plan:"+pl.Name] = map[string]interface{}{"m": pl.M, "seed": pl.SeedName, "seed_failed_at_step": pl.seedFailAt, "states": 0, "fixpoint": false}
+	e.r.Exhaustive = false
+}
+
 func (e *explorer) vac(name string) { e.r.Vacuity[fmt.Sprintf("m%d_%s", e.pl.M, name)]++ }
 
 func (e *explorer) events(pre, post Shape, o Op) {
@@ -422,6 +440,10 @@ func enabled(pl *Plan, o Op, model Model) bool {
 func (e *explorer) explore() {
 	pl := e.pl
 	r := e.r
+	if pl.seedFail != nil {
+		e.reportSeed()
+		return
+	}
 	// seed
 	w, model, dump, pAt, pMsg := run(pl, nil)
 	if pAt >= 0 {
@@ -556,6 +578,14 @@ func replay(f *core.Flags, r *core.Result) {
 		os.Exit(2)
 	}
 	pl.prepare()
+	if pl.seedFail != nil {
+		f := *pl.seedFail
+		fmt.Printf("seed %s cannot be built: %s\n", pl.SeedName, f.Detail)
+		r.AddViolation(core.Violation{Property: r.Property, Assertion: f.Assertion,
+			Signature: fmt.Sprintf("m=%d|seed=%s|%s|seed-prefix(%d)", pl.M, pl.SeedName, f.Assertion, pl.seedFailAt), Detail: f.Detail, Replay: doc})
+		r.Traces = 1
+		return
+	}
 	fmt.Printf("replaying on a fresh m=%d tree (seed %s): %s\n", pl.M, pl.SeedName, opsString(doc.Ops))
 	for i := 0; i <= len(doc.Ops); i++ {
 		ops := doc.Ops[:i]
